@@ -14,6 +14,7 @@ from .build import Build, BuildError, PY, GUARD
 
 HERE = os.path.dirname(os.path.abspath(__file__))
 VERIF = os.path.dirname(HERE)
+OUT = os.environ.get("VERIF_OUT", VERIF)      # evidence/ and replays/ go here (redirected for scratch mutant runs)
 WORKER = os.path.join(HERE, "worker.py")
 NPROC = int(os.environ.get("VERIF_JOBS", "16"))
 
@@ -96,6 +97,7 @@ class Check:
         self.meta = evidence_meta or {}
         self.extra_job = extra_job or {}
         self.seed = int(os.environ.get("VERIF_SEED", common.DEFAULT_SEED))
+        self.crash_is_violation = prop == "C17"      # "the interpreter never crashes" is C17's own clause
         self.lines = []
 
     def say(self, s):
@@ -121,7 +123,7 @@ class Check:
                    "count": min(plan["block"], plan["runs"] - b * plan["block"]),
                    "deadline_s": remaining, "hang_s": remaining + 60, "max_fail": 4}
             job.update(self.extra_job)
-            if self.variant == "san":
+            if self.variant == "san" or self.crash_is_violation:
                 job["oplog"] = os.path.join(tmpdir, "oplog-%d.jsonl" % b)
             try:
                 out = call_worker(build, job, hs, remaining + 90, tmpdir, "b%d" % b)
@@ -189,7 +191,7 @@ class Check:
         for f in agg["failures"]:
             groups.setdefault(signature(f), []).append(f)
         nviol = nknown = 0
-        os.makedirs(os.path.join(VERIF, "replays"), exist_ok=True)
+        os.makedirs(os.path.join(OUT, "replays"), exist_ok=True)
         for gi, (sig, fs) in enumerate(sorted(groups.items())):
             if gi >= 8:
                 self.say("note: %d more failure signatures not minimised" % (len(groups) - 8))
@@ -202,7 +204,7 @@ class Check:
                 rec = self.replay_record(f)
                 ok = self.confirm(build, tmpdir, rec, str(gi) + "u")
             safe = "".join(c if c.isalnum() else "_" for c in sig)[:60]
-            path = os.path.join(VERIF, "replays", "%s-%d-%s.json" % (self.prop, self.seed, safe))
+            path = os.path.join(OUT, "replays", "%s-%d-%s.json" % (self.prop, self.seed, safe))
             rec["reproduced_in_fresh_process"] = ok
             with open(path, "w") as fh:
                 json.dump(rec, fh, indent=1)
@@ -224,8 +226,13 @@ class Check:
     def handle_crashes(self, build, tmpdir, agg):
         """A worker that died: in the sanitizer build this is the violation."""
         nviol = 0
+        seen = set()
         for b, hs, e in agg["crashes"]:
-            san = self.variant == "san" and ("Sanitizer" in (e.output or "") or "runtime error" in (e.output or "") or e.rc == 77)
+            sig = san_signature(e.output)
+            if sig in seen:
+                continue
+            seen.add(sig)
+            san = is_fatal(self, e)
             if not san:
                 self.say("HARNESS-ERROR: worker for block %d failed: %s\n%s" % (b, e, (e.output or "")[-3000:]))
                 raise common.HarnessError("worker crash")
@@ -240,11 +247,11 @@ class Check:
                         cfg, ops = j["cfg"], []
                     elif "op" in j:
                         ops.append(j["op"])
-            rec = {"property": self.prop, "engine": self.engine, "build": "san", "hashseed": hs, "verif_seed": self.seed,
-                   "cfg": cfg, "ops": ops, "expected_violation": {"oracle": "sanitizer_report", "step": len(ops) - 1,
-                                                                  "detail": san_summary(e.output)}}
+            rec = {"property": self.prop, "engine": self.engine, "build": self.variant, "hashseed": hs, "verif_seed": self.seed,
+                   "cfg": cfg, "ops": ops, "expected_violation": {"oracle": "sanitizer_report" if self.variant == "san" else "interpreter_crash",
+                                                                  "step": len(ops) - 1, "detail": san_summary(e.output)}}
             rec = self.minimise_isolated(build, tmpdir, rec)
-            path = os.path.join(VERIF, "replays", "%s-%d-sanitizer-b%d.json" % (self.prop, self.seed, b))
+            path = os.path.join(OUT, "replays", "%s-%d-%s-b%d.json" % (self.prop, self.seed, "sanitizer" if self.variant == "san" else "crash", b))
             os.makedirs(os.path.dirname(path), exist_ok=True)
             with open(path, "w") as fh:
                 json.dump(rec, fh, indent=1)
@@ -263,7 +270,7 @@ class Check:
         try:
             call_worker(build, {"mode": "replay", "replay": r, "hang_s": 60}, rec["hashseed"], 90, tmpdir, tag)
         except WorkerCrash as e:
-            return "Sanitizer" in (e.output or "") or "runtime error" in (e.output or "") or e.rc == 77
+            return is_fatal(self, e)
         return False
 
     def minimise_isolated(self, build, tmpdir, rec):
@@ -321,27 +328,39 @@ class Check:
         ev = {"property_id": self.prop, "tier": self.tier, "seed": self.seed, "level": "exploration",
               "coverage": cov, "assumptions": self.meta.get("assumptions", []), "wall_s": round(wall, 2),
               "violations": nviol}
-        os.makedirs(os.path.join(VERIF, "evidence"), exist_ok=True)
-        with open(os.path.join(VERIF, "evidence", self.prop + ".json"), "w") as f:
+        os.makedirs(os.path.join(OUT, "evidence"), exist_ok=True)
+        with open(os.path.join(OUT, "evidence", self.prop + ".json"), "w") as f:
             json.dump(ev, f, indent=1, sort_keys=True)
         return ev
 
     # -------------------------------------------------------------- main
     def run(self, post=None):
         t0 = time.monotonic()
-        self.say("seed=%d property=%s tier=%s engine=%s variant=%s" % (self.seed, self.prop, self.tier, self.engine, self.variant))
+        stages = self.plan.get("stages") or [dict(self.plan, variant=self.variant)]
+        self.say("seed=%d property=%s tier=%s engine=%s stages=%s" % (self.seed, self.prop, self.tier, self.engine,
+                                                                      ",".join(st["variant"] for st in stages)))
         tmpdir = tempfile.mkdtemp(prefix="simq-run-")
+        total = None
+        nviol = nknown = 0
+        extra_cov = {}
         try:
             try:
-                with Build(self.variant) as build:
-                    agg = self.run_blocks(build, tmpdir)
-                    nviol = self.handle_crashes(build, tmpdir, agg)
-                    nv2, nknown = self.handle_failures(build, tmpdir, agg)
-                    nviol += nv2
-                    extra_cov = None
-                    if post is not None:
-                        pv, extra_cov = post(self, build, tmpdir, agg)
-                        nviol += pv
+                for si, st in enumerate(stages):
+                    self.variant = st["variant"]
+                    self.plan = st
+                    self.stage_index = si
+                    with Build(self.variant) as build:
+                        agg = self.run_blocks(build, tmpdir)
+                        nviol += self.handle_crashes(build, tmpdir, agg)
+                        nv2, nk2 = self.handle_failures(build, tmpdir, agg)
+                        nviol += nv2
+                        nknown += nk2
+                        if post is not None:
+                            pv, ec = post(self, build, tmpdir, agg)
+                            nviol += pv
+                            extra_cov.update(ec or {})
+                    agg["per_stage"] = {self.variant: {"runs": agg["runs"], "wall_s": round(agg["wall"], 1), "crashed_blocks": len(agg["crashes"])}}
+                    total = agg if total is None else merge_agg(total, agg)
             except BuildError as e:
                 self.say("HARNESS-ERROR: build failed: %s" % e)
                 return EXIT_HARNESS
@@ -349,9 +368,12 @@ class Check:
                 self.say("HARNESS-ERROR: %s" % e)
                 return EXIT_HARNESS
             wall = time.monotonic() - t0
-            if agg["runs"] == 0:
+            agg = total
+            if agg["runs"] == 0 and not nviol:
                 self.say("HARNESS-ERROR: no runs executed")
                 return EXIT_HARNESS
+            self.variant = "+".join(st["variant"] for st in stages)
+            extra_cov["per_stage"] = agg.get("per_stage", {})
             ev = self.write_evidence(agg, nviol, nknown, wall, extra_cov)
             c = ev["coverage"]
             self.say("runs=%d ops=%d distinct_nontrivial=%d runs/h=%d wall=%.1fs violations=%d known=%d" %
@@ -363,8 +385,46 @@ class Check:
             shutil.rmtree(tmpdir, ignore_errors=True)
 
 
+def merge_agg(a, b):
+    for k in ("runs", "ops", "steps", "blocks", "stopped_early", "worker_wall", "wall"):
+        a[k] += b[k]
+    a["digests"] |= b["digests"]
+    a["hashseeds"] |= b["hashseeds"]
+    for key in ("probes", "faults", "discarded", "extra"):
+        for k, v in b[key].items():
+            a[key][k] = a[key].get(k, 0) + v
+    a["samples"] = (a["samples"] + b["samples"])[:3]
+    a["per_stage"].update(b["per_stage"])
+    return a
+
+
+def is_fatal(chk, e):
+    """Did the worker die in a way that IS the violation (sanitizer report, or a signal under C17)?"""
+    out = e.output or ""
+    if "Sanitizer" in out or "runtime error" in out or e.rc == 77:
+        return True
+    if chk.crash_is_violation and isinstance(e.rc, int) and (e.rc < 0 or e.rc in (134, 139)) :
+        return True
+    if chk.crash_is_violation and "Fatal Python error" in out:
+        return True
+    return False
+
+
+def san_signature(output):
+    """Source location of frame #0 inside the extension (dedupes identical reports)."""
+    import re
+    for l in (output or "").splitlines():
+        m = re.search(r"#0 .* in (\S+) .*?/qubovert/sim/(\S+?):(\d+)", l)
+        if m:
+            return "%s@%s:%s" % (m.group(1), m.group(2), m.group(3))
+    for l in (output or "").splitlines():
+        if "runtime error" in l:
+            return l.split("runtime error")[-1][:80]
+    return "unknown"
+
+
 def san_summary(output):
-    lines = [l for l in (output or "").splitlines() if "ERROR: AddressSanitizer" in l or "runtime error" in l or "SUMMARY" in l
+    lines = [l for l in (output or "").splitlines() if "ERROR: AddressSanitizer" in l or "runtime error" in l or "SUMMARY" in l or "Fatal Python error" in l
              or l.strip().startswith("#0") or l.strip().startswith("#1") or l.strip().startswith("#2")]
     return " | ".join(lines[:8])[:1500] or (output or "")[-500:]
 
@@ -379,7 +439,9 @@ def replay_file(path):
             try:
                 out = call_worker(build, {"mode": "replay", "replay": rec, "hang_s": 120}, rec.get("hashseed", 0), 150, tmpdir, "rp")
             except WorkerCrash as e:
-                if rec.get("build") == "san" and ("Sanitizer" in (e.output or "") or "runtime error" in (e.output or "") or e.rc == 77):
+                class _C:
+                    crash_is_violation = rec.get("property") == "C17"
+                if is_fatal(_C, e):
                     print("VIOLATION property=%s replay=%s" % (rec["property"], path))
                     print("  " + san_summary(e.output))
                     return EXIT_VIOLATION
